@@ -60,6 +60,13 @@ def main():
                 scs.append({"np": npr, "n_tasks": npr + 3, "delays": [0.02] * (npr + 3), "fail_at": list(range(npr)), "fail_type": ft, "second_call": True})
                 scs.append({"np": npr, "n_tasks": 2 * npr + 1, "delays": [0.01] * (2 * npr + 1), "fail_at": list(range(0, 2 * npr, 2)) + [2 * npr], "fail_type": ft, "second_call": True})
                 scs.append({"np": npr, "n_tasks": 3, "delays": [0.0, 0.02, 0.0], "fail_at": 1, "fail_type": ft, "repeat_failing": npr + 1, "second_call": True})
+        # two failing tasks, the earlier one (in task order) finishing later: the serial loop raises the
+        # exception of the earlier one; and a fast failure while the other tasks are still running,
+        # followed at once by a second call on the same ParallelMap (no left-over results)
+        for npr in (2, 3, 4):
+            scs.append({"np": npr, "n_tasks": npr + 1, "delays": [0.25] + [0.0] * npr, "fail_at": [0, 1], "fail_type": "ValueError", "second_call": True})
+            scs.append({"np": npr, "n_tasks": npr, "delays": [0.3, 0.0] + [0.3] * (npr - 2), "fail_at": 1, "fail_type": "ValueError", "second_call": True})
+            scs.append({"np": 4, "n_tasks": 3, "delays": [0.3, 0.0, 0.3], "fail_at": 1, "fail_type": "Unpicklable" if npr == 3 else "ValueError", "second_call": True})
     shard, nsh = int(a.get("shard", 0)), int(a.get("nshards", 1))
     scs = [s for i, s in enumerate(scs) if i % nsh == shard]
     acc = Acc()
@@ -92,10 +99,16 @@ def main():
                 acc.add("failing task: caller receives an exception", cls, 0.0 if c0.get("exception") else 1.0, 0, where=where, sig="returned %s results instead of raising" % c0.get("n_returned"))
                 if c0.get("exception") and sc["fail_type"] == "ValueError":
                     acc.add("failing task: exception type as in serial execution", cls, 0.0 if c0["exception"] == "ValueError" else 1.0, 0, where=where, sig="got %s" % c0.get("exception"))
+                ff = r.get("model_first_failing_task")
+                if c0.get("exception") and ff is not None and c0.get("exception_msg") is not None:
+                    acc.add("failing task: the exception is that of the first failing task in task order (as the serial loop)", cls, 0.0 if ("task %d failed" % ff) in c0["exception_msg"] else 1.0, 0, where=where, sig="serial: 'task %d failed'; got %r" % (ff, c0["exception_msg"][:80]))
                 if "call1" in r:
                     c1 = r["call1"]
                     ok = (not c1["hang"]) and (c1.get("exception") is not None or c1.get("positions_ok"))
                     acc.add("next call on the same ParallelMap: correct positions or an exception", cls, 0.0 if ok else 1.0, 0, where=dict(where, second=c1), sig="hang" if c1["hang"] else "stale results in wrong positions")
+                    # a serial loop keeps no state: after the failed call the next one simply works
+                    ok2 = (not c1["hang"]) and c1.get("exception") is None and bool(c1.get("positions_ok"))
+                    acc.add("next call on the same ParallelMap behaves like a fresh serial loop (returns the right results)", cls, 0.0 if ok2 else 1.0, 0, where=dict(where, second=c1), sig="second call: %s" % ("hang" if c1["hang"] else (c1.get("exception") or "wrong positions")))
     out = {"records": acc.records(), "executions": len(scs), "distinct_keys": ["order:%d:%s" % (n, ",".join(map(str, o))) for n, o in sorted(orders)], "samples": samples, "inconclusive": inconclusive, "distinct_completion_orders": len(orders)}
     write_out(d, out)
 
